@@ -187,3 +187,30 @@ Theorem C02_encrypt_ex_eq_encrypt : forall (NO : numops) (P : point NO) k m,
   match enc_try NO P m k with Some c => ExOk c | None => ExRetry end.
 Proof. exact encrypt_ex_eq_encrypt. Qed.
 Print Assumptions C02_encrypt_ex_eq_encrypt.
+
+(* ---- wave 5: fixed point-size encryption, print parse, size queries ---- *)
+Theorem C02_encrypt_fixlen_sound : forall (P : point ZOps) m psize (en : ent) c rest,
+  do_encrypt_fixlen ZOps P m psize en = Some (c, rest) ->
+  (psize = 68 \/ psize = 69 \/ psize = 70)%N /\ (1 <= length m <= 255)%nat /\
+  exists used kb, en = used ++ kb :: rest /\
+    1 <= le_to_Z kb < n /\ point_der_len ZOps (sm2_mulG ZOps (le_to_Z kb)) = psize /\
+    std_kdf_zero P m (le_to_Z kb) = false /\ c = std_ct P m (le_to_Z kb).
+Proof. exact encrypt_fixlen_sound. Qed.
+Print Assumptions C02_encrypt_fixlen_sound.
+
+Theorem C02_ciphertext_print_strict : forall a,
+  bytes_ok a = true -> ciphertext_print_ok a = true -> exists c, a = ct_to_der c.
+Proof. exact ciphertext_print_strict. Qed.
+Print Assumptions C02_ciphertext_print_strict.
+
+Theorem C02_encrypt_finish_query_spec : forall chunks,
+  encrypt_finish_query chunks =
+  if ((1 <=? lenN (concat chunks)) && (lenN (concat chunks) <=? 255))%N then Some 366%N else None.
+Proof. exact encrypt_finish_query_spec. Qed.
+Print Assumptions C02_encrypt_finish_query_spec.
+
+Theorem C02_decrypt_finish_query_spec : forall chunks,
+  decrypt_finish_query chunks =
+  if ((45 <=? lenN (concat chunks)) && (lenN (concat chunks) <=? 366))%N then Some 255%N else None.
+Proof. exact decrypt_finish_query_spec. Qed.
+Print Assumptions C02_decrypt_finish_query_spec.
